@@ -9,7 +9,34 @@ NOTES = ("Model-based verification with explicit TLA+ specifications (spec/*.tla
 DEFAULT_NA = "check not built yet in this round (planned in DESIGN.md section 6); not claimed until its quick and thorough commands pass on the unchanged tree"
 NOT_APPLICABLE = {}
 
+_SYNC_NOTE = ("Trusted: TLC; the harness stream (hstream) and snapshotter (own lstat/readlink/llistxattr code); ext4 as root; "
+              "generators' domain (no sockets, majors < 4096, regular-file hard links only); bounded universes and seeded random cases.")
+
 CLAIMED = {
+    "C01": dict(
+        text="Real Send and Receive are run against each other over an instrumented in-memory stream for every (source tree, prior "
+             "destination) pair of a bounded universe and for seeded random trees (all entry types, hard-link groups, xattrs, sizes around the "
+             "32KiB chunk, names sorting differently bytewise vs path-wise) in dirty and merge mode; TLC validates each recorded execution "
+             "against the property-layer predicates Converged / Overlay of spec/SyncOutcome.tla evaluated on independent snapshots and the STAT log.",
+        design_ref="DESIGN.md section 6 C01",
+        note=_SYNC_NOTE,
+        technique="TLA+ property layer (SyncOutcome, SyncTrace) + TLC trace validation of real Send/Receive executions"),
+    "C02": dict(
+        text="Edit histories (random initial tree, random source mutations of every kind between consecutive syncs, unchanged re-syncs, "
+             "differ metadata/none) are synced step by step into the same destination with the real code; TLC checks for every step that the "
+             "set of REQ ids on the wire equals Needed (up to the explicit hard-link exception set), that every identity-unchanged entry kept "
+             "inode and bytes, and that a re-sync of an unchanged source is silent.",
+        design_ref="DESIGN.md section 6 C02",
+        note=_SYNC_NOTE,
+        technique="TLA+ property layer (SyncOutcome: Changed/Needed/Exception/Kept) + TLC trace validation of real sync histories"),
+    "C05": dict(
+        text="For every sync of the C01 pairs and C02 histories TLC checks the notification log against spec/Notify.tla: applying the events "
+             "to a model of the old destination yields the new one, every identity-changed path reported exactly once with the stat as sent, "
+             "no unchanged path reported, top-most deletes reported, digest = (header of the stat as sent, bytes now stored), parent before "
+             "child, delete before re-add. The ContentHasher is a transparent recorder so digests decompose into comparable fields.",
+        design_ref="DESIGN.md section 6 C05",
+        note=_SYNC_NOTE,
+        technique="TLA+ property layer (Notify) + TLC trace validation of real sync executions with a transparent hasher"),
     "C12": dict(
         text="TLC proves, for every change sequence up to the bound over a hostile path alphabet, that the transcribed Validator "
              "(alg) accepts exactly what the property-layer ValidStream accepts and rejects at the same index, and that the "
